@@ -39,11 +39,21 @@ func VerifC19Framing(v *vrt.T) {
 	l2 := verifFrameLens[v.Choose("len2", nl)]
 	p1 := verifFramePayload(l1, v.Bytes("p1", min(l1, 3)))
 	p2 := verifFramePayload(l2, v.Bytes("p2", min(l2, 3)))
+	// a third, short message after the two (a keepalive after data): a reader that takes
+	// more than the current frame swallows its bytes
+	third := v.Choose("third", 2) == 1
+	p3 := []byte{}
+	if third {
+		p3 = v.Bytes("p3", 1)
+	}
 
 	w := &verifSink{}
 	err1 := WriteMessage(&verifMsg{payload: p1}, w)
 	err2 := WriteMessage(&verifMsg{payload: p2}, w)
 	v.Assert(err1 == nil && err2 == nil, "WriteMessage succeeds")
+	if third {
+		v.Assert(WriteMessage(&verifMsg{payload: p3}, w) == nil, "WriteMessage succeeds")
+	}
 	v.Observe("stream", len(w.data))
 
 	// the reading side: the stream arrives in fragments; as in udf.go the reader may be
@@ -64,8 +74,14 @@ func VerifC19Framing(v *vrt.T) {
 	e2 := ReadMessage(&buf, r, m2)
 	v.Assert(e2 == nil, "second message is read without error")
 	v.Assert(verifSameBytes(m2.payload, p2), "second message read back identical")
+	if third {
+		mt := &verifMsg{}
+		et := ReadMessage(&buf, r, mt)
+		v.Assert(et == nil, "third message is read without error")
+		v.Assert(verifSameBytes(mt.payload, p3), "third message read back identical")
+	}
 	e3 := ReadMessage(&buf, r, m3)
-	v.Assert(e3 == io.EOF, "the stream ends exactly after the second message")
+	v.Assert(e3 == io.EOF, "the stream ends exactly after the last message")
 	v.Observe("got", len(m1.payload), len(m2.payload), e3 == io.EOF)
 	if l1 > 0 {
 		v.Observe("first byte", m1.payload[0])
